@@ -852,6 +852,18 @@ func (cs *ChainState) RestoreBlockAndState(blockHeaderHash types.HeaderHash) err
 	return cs.restoreWithState(blockHeaderHash, block, state, unmatchedKeyVals)
 }
 
+// RollbackFailedImport undoes a block import whose state transition failed.
+// The block was added to the block list before the transition ran, and the
+// transition updates the posterior and intermediate stores (and parts of the
+// prior state in place) as it goes; none of that may survive a rejection.
+// The node goes back to the parent: prior state re-read from the committed
+// key-values, block list and ancestry cut at the parent, working stores empty.
+func (cs *ChainState) RollbackFailedImport(parentHeaderHash types.HeaderHash) error {
+	cs.GetPosteriorStates().SetState(*NewPosteriorStates().state)
+	cs.intermediateStates = NewIntermediateStates()
+	return cs.RestoreBlockAndState(parentHeaderHash)
+}
+
 // RestoreStateFromSnapshot restores block/ancestry management like RestoreBlockAndState,
 // but uses the provided state + unmatchedKeyVals instead of reading from DB.
 func (cs *ChainState) RestoreStateFromSnapshot(
